@@ -83,7 +83,7 @@ def gen_case(r, idx, tier):
     hmax = int(r.choice([2, 3, 10, 100, 1000]))
     tol = float(r.choice([1e-3, 0.01, 0.05, 0.1, 0.25, 0.5]))
     noise = float(r.choice([0.0, 1e-4, 0.01, 0.05, 0.3]))
-    sel = ["normal", "normal", "normal", "coplanar", "collinear", "puregarbage"][int(r.integers(6))]
+    sel = ["normal", "normal", "normal", "coplanar", "collinear", "puregarbage", "coplanar-g"][int(r.integers(7))]
     h = r.integers(-hmax, hmax + 1, (n, 3)).astype(float)
     if sel == "coplanar":
         h[:, 2] = 0
@@ -93,6 +93,12 @@ def gen_case(r, idx, tier):
     gv = (h + dh) @ UB.T
     if sel == "puregarbage":
         gv = r.uniform(-1, 1, (n, 3))
+    if sel == "coplanar-g":
+        # observed g-vectors exactly in a plane (one component exactly 0) but a UBI that maps them to
+        # non-coplanar hkl: sum h h^T is invertible, UB = R H^-1 has an exactly zero row and no inverse
+        gv = r.uniform(-1, 1, (n, 3))
+        gv[:, int(r.integers(3))] = 0.0
+        tol = 0.5
     # engineered boundary peaks: drlv exactly tol*(1+-1e-6 / 1e-12) (exercise the margin logic)
     nb = min(n // 4, 6)
     for k in range(nb):
@@ -101,6 +107,8 @@ def gen_case(r, idx, tier):
         dirn /= np.sqrt(dirn @ dirn)
         gv[k] = (h[k] + dirn * tol * f) @ UB.T
     gv = np.ascontiguousarray(gv)
+    if sel == "coplanar-g":
+        gv[:, np.argmin(np.abs(gv).sum(axis=0))] = 0.0     # keep it exactly planar after the boundary peaks
     return dict(kind=kind, cell=cell, n=n, hmax=hmax, tol=tol, noise=noise, sel=sel), ubi, gv
 
 
@@ -242,6 +250,16 @@ def check_refined(run, V, name, ubi0, u, gv, ih, drlv2, inside, unsure, n_rep, m
     if abs(mean_rep - mean_ref) > 1e-9 * max(mean_ref, 1e-30) + 1e-13 * (1 + float(np.abs(ih).max() if len(ih) else 0)) ** 2 * 1e-3:
         V(name + ":mean-drlv2", "reported mean drlv2 %r != reference %r (n=%d)" % (mean_rep, mean_ref, ns))
     UBr, det, exact_ok, cond = solve_ref(gv, ih, sel)
+    gsel = np.asarray(gv)[sel]
+    if det != 0 and ns and (gsel == 0).all(axis=0).any():
+        # every selected g-vector has an exactly zero component: sum g h^T has a zero row, so UB = R H^-1 has a
+        # zero row, its determinant is exactly 0 in floating point too and no UBI exists: input must come back
+        run.count("singular_cases")
+        run.count("singular_UB_cases")
+        if u.tobytes() != np.ascontiguousarray(ubi0).tobytes():
+            V(name + ":singular-UB-modified", "selected g-vectors are coplanar (UB = R H^-1 has no inverse, %d peaks) but the "
+              "matrix was modified: %r" % (ns, u.tolist()))
+        return
     if det == 0:
         if exact_ok:
             run.count("singular_cases")
@@ -290,4 +308,5 @@ def check(run, replay=None):
         one_case(run, run.seed, idx, mods, libs)
     run.require_counter("refined_matrices_checked", 100)
     run.require_counter("singular_cases", 10)
+    run.require_counter("singular_UB_cases", 5)
     run.require_counter("definedness_runs", 100)
